@@ -514,6 +514,12 @@ def directed_cases():
         for ask in ('pop', 'get'):
             out.append({'cls': cls, 'max_size': 2, 'on_miss': False, 'prefill': [['a', 0], ['b', 1]], 'small': True,
                         'programs': [[['set', 'c', 3]], [[ask, 'a', None], [ask, 'c', None]]]})
+        # a call that fails on its argument (an unhashable key: TypeError) in one thread, then ordinary use from another:
+        # whatever the failed call took - the lock - has to be given back
+        for bad in (['getitem', ['un', 'hashable']], ['get', ['un', 'hashable'], None], ['setdefault', ['un', 'hashable'], 1],
+                    ['set', ['un', 'hashable'], 1], ['pop', ['un', 'hashable'], None]):
+            out.append({'cls': cls, 'max_size': 2, 'on_miss': False, 'prefill': [['a', 0]], 'small': True,
+                        'programs': [[bad, ['set', 'y', 2]], [['set', 'x', 1], ['getitem', 'a']]]})
         # a lookup that misses and computes its value through on_miss, against a writer of the same key
         for look in (['getitem', 'x'], ['get', 'x', None], ['setdefault', 'x', 7]):
             for other in (['set', 'x', 5], ['getitem', 'x']):
